@@ -4,6 +4,7 @@ Reference model over plain dicts (gen/tables.py); comparison on canonical unorde
 and the sidecar around every call.
 """
 import copy
+import os
 import io
 import json
 
@@ -138,6 +139,19 @@ def check_sheet(case, rec):
         if case["form"] == "frame":
             src = pd.DataFrame(rows, columns=cols)
             obj = SpreadsheetInput(src, tag_columns=case["tag_columns"], column_prefix_dictionary=case["prefixes"])
+        elif case["form"] == "xlsx":
+            import openpyxl
+            wb = openpyxl.Workbook()
+            ws = wb.active
+            ws.append(list(cols))
+            for r in rows:
+                # numbers as numeric cells, 'nothing here' as an empty cell
+                # (the plain 'other' column always holds text: a row of empty cells only does not exist in a workbook)
+                ws.append([c if cols[j] == "other" else None if c in ("", "n/a") else (int(c) if c.isdigit() else c)
+                           for j, c in enumerate(r)])
+            path = os.path.join(env.scratch(), f"c06-{os.getpid()}.xlsx")
+            wb.save(path)
+            obj = SpreadsheetInput(path, tag_columns=case["tag_columns"], column_prefix_dictionary=case["prefixes"])
         else:
             text = "\t".join(cols) + "\n" + "\n".join("\t".join(c if c != "" else "n/a" for c in r) for r in rows) + "\n"
             obj = SpreadsheetInput(io.StringIO(text), file_type=".tsv", tag_columns=case["tag_columns"],
@@ -205,14 +219,14 @@ def run_sheets(shard, rec):
                         row.append("n/a" if q < 0.2 else ("" if q < 0.3 else
                                    annot.render(gen.annotation(depth=2, temporal=False, size=rng.randrange(1, 3), reset=False), rng)))
                     elif c in pre:
-                        row.append("n/a" if q < 0.2 else ("" if q < 0.3 else rng.choice(annot.WORDS)))
+                        row.append("n/a" if q < 0.2 else ("" if q < 0.3 else rng.choice(annot.WORDS + ["3", "0", "12", "7"])))
                     else:
                         row.append(rng.choice(["x", "1", "n/a"]))
                 rows.append(row)
         except RuntimeError:
             rec.discard()
             continue
-        for form in ("frame", "tsv"):
+        for form in ("frame", "tsv", "xlsx"):
             case = dict(kind="sheet", columns=cols, rows=rows, tag_columns=tagcols, prefixes=pre, form=form)
             rec.case((json.dumps(case, sort_keys=True)), nontrivial=len(tagcols) + len(pre) >= 2)
             check_sheet(case, rec)
